@@ -3850,12 +3850,18 @@ package otto
 //@ func (*runtime).cmplEvaluateNodeWithStatement
 //@   props C18
 //@   nosafety
-//@   requires rt != nil && rt.otto != nil && rt.scope != nil && node != nil
+//@   requires rt != nil && rt.otto != nil
 //@   at_call (*runtime).cmplEvaluateNodeStatement : arg0 == rt && rt.scope.lexical == lexical
 //@   at_call (*runtime).newObjectStash : arg2 == outer
 //@   calls (*runtime).cmplEvaluateNodeStatement(_, _) as b
-//@   unwind_ensures called(b) ==> rt.scope.lexical == outer
-//@   ensures called(b) && rt.scope.lexical == outer
+//@   calls (*runtime).newObjectStash(_, _, _) as st
+//@   unwind_ensures called(b) ==> called(st) && rt.scope.lexical == st.outr
+//@   ensures called(b) && called(st) && rt.scope.lexical == st.outr
+//@ stablefield[C18] objectStash.outr writers=(*runtime).newObjectStash,(*objectStash).clone
+//@ func (*runtime).newObjectStash
+//@   props C18
+//@   nosafety
+//@   ensures result != nil && result.rt == rt && result.outr == outer && (obj != nil ==> result.object == obj)
 
 // 15.3.4.3/4/5 apply, call, bind never index past their argument list.
 //@ func builtinFunctionCall
